@@ -681,7 +681,7 @@ func c18Gen(r *Rng, drv string, ka bool, maxLen int) c18Hist {
 			}
 			now = t
 			ok := true
-			if ka && drv != "srv" && r.Chance(7) {
+			if ka && drv != "srv" && drv != "tcp" && r.Chance(7) {
 				ok = false
 			}
 			h.evs = append(h.evs, c18Ev{kind: 'T', t: t, ok: ok})
